@@ -76,9 +76,13 @@ template <int S> static void explore(Ctx &c, long &id) {
   const bool th = c.args.thorough();
   static const double ratios[] = {2, 4, 8, 16, 32, 50, 64, 100};
   const int N2max = th ? 10 : 8, N3max = th ? 6 : 4;
-  for (double r : ratios) {
-    double lo = 1.0 / std::sqrt(r), hi = std::sqrt(r);
-    for (int base = 2; base <= 3; ++base) for (int N = 2; N <= (base == 2 ? N2max : N3max); ++N) {
+  // overall time scale: the property quantifies over every accepted duration vector (entries >= 1 ms), so the
+  // {lo,hi} alphabet is also run at scales 2^-6, 2^6 and 2^10 (two-letter words only; lo*scale stays >= 1 ms)
+  static const double scales[] = {1.0, 0.015625, 64.0, 1024.0};
+  for (double sc : scales) for (double r : ratios) {
+    double lo = sc / std::sqrt(r), hi = sc * std::sqrt(r), mid = sc;
+    if (lo < 1e-3) continue;
+    for (int base = 2; base <= (sc == 1.0 ? 3 : 2); ++base) for (int N = 2; N <= (base == 2 ? (sc == 1.0 ? N2max : std::min(N2max, 7)) : N3max); ++N) {
       long nw = ipow(base, N);
       for (long w = 0; w < nw; ++w) {
         long my = id++;
@@ -86,14 +90,14 @@ template <int S> static void explore(Ctx &c, long &id) {
         std::string unit = str(my);
         if (!c.begin(unit)) continue;
         std::vector<double> T(N); bool haslo = false, hashi = false;
-        { long ww = w; for (int i = 0; i < N; ++i) { int l = ww % base; ww /= base; T[i] = base == 2 ? (l ? hi : lo) : (l == 0 ? lo : l == 1 ? 1.0 : hi); haslo |= T[i] == lo; hashi |= T[i] == hi; } }
+        { long ww = w; for (int i = 0; i < N; ++i) { int l = ww % base; ww /= base; T[i] = base == 2 ? (l ? hi : lo) : (l == 0 ? lo : l == 1 ? mid : hi); haslo |= T[i] == lo; hashi |= T[i] == hi; } }
         double eff_ratio = 1.0; { double mn = T[0], mx = T[0]; for (double t : T) { mn = std::min(mn, t); mx = std::max(mx, t); } eff_ratio = std::round(mx / mn * 1e6) / 1e6; }
         Runner<S> rr(c, unit, eff_ratio);
         rr.run_case(N, T);
         ++c.st.evaluations;
-        std::string key = fmt("S%d/r%g/b%d/N%d/w%ld", S, r, base, N, w);
+        std::string key = fmt("S%d/sc%g/r%g/b%d/N%d/w%ld", S, sc, r, base, N, w);
         if (!c.st.seen(key) && haslo && hashi) ++c.st.nontrivial;
-        c.st.cls(fmt("%s/ratio=%g", order_name(S), r));
+        c.st.cls(fmt("%s/ratio=%g", order_name(S), r)); if (sc != 1.0) c.st.cls(fmt("%s/scale=%g", order_name(S), sc));
         if (my % 1499 == 0) c.st.sample(fmt("unit %ld: %s D=%d ratio=%g N=%d %d-letter word=%s (durations %s), residuals of interpolation / boundary / continuity 0..%d for all %d basis data + generic", my, order_name(S), D, r, N, base, word_str(N, w, base).c_str(), base == 2 ? "{1/sqrt r, sqrt r}" : "{1/sqrt r, 1, sqrt r}", 2 * S - 2, nbasis(S, N)));
       }
     }
